@@ -74,6 +74,7 @@ func init() {
 			ruleRefStore(c, "C04.REFSTORE")
 			ruleFkExists(c, "C04.EXISTS")
 			ruleKeyPresence(c, "C04.PRESENCE")
+			ruleProtocol(c, "C04.PROTOCOL")
 			ruleOwnPresence(c, "C04.PRESENT")
 			ruleOldFirst(c, "C04.OLDFIRST", []string{"fkIndex"})
 			ruleUnchangedShortcut(c, "C04.UNCHANGED", []string{"fkIndex", "fkConstraint"})
@@ -120,6 +121,7 @@ func init() {
 			ruleSymbolPathNotName(c, "C05.NAMEPATH")
 			ruleEntityBucketDescent(c, "C05.ENTITYBUCKET")
 			ruleLinkOwnStore(c, "C05.LINKSTORE")
+			ruleNoTxStateInStores(c, "C05.NOTXSTATE")
 			rulePutFresh(c, "C05.PUTFRESH")
 			ruleTaggedOnce(c, "C05.KEYTAG")
 			ruleNoStats(c, "C05.NOSTATS")
@@ -2526,10 +2528,14 @@ func ruleKeyPresence(c *Ctx, rule string) {
 	setEntry := p.SSAFunc(tbMethod(c, "SetListEntry"))
 	put := p.ExtMethod(bboltPath, "Bucket", "Put")
 	nilValued := false
-	for _, call := range callsIn(setEntry) {
+	// (the entry may be written by a helper SetListEntry hands to)
+	if what, _, _ := reachesStatic(setEntry, 3, func(call ssa.CallInstruction) string {
 		if isCallTo(call, put) && isNilConst(call.Common().Args[2]) {
-			nilValued = true
+			return "put"
 		}
+		return ""
+	}); what != "" {
+		nilValued = true
 	}
 	fn := p.SSAFunc(tbMethod(c, "IsKeyPresent"))
 	c.Analysed(FnName(fn))
